@@ -113,6 +113,13 @@ def corpus(tier, rng, rounds=None):
         for v in (2 ** 64 - 1, 2 ** 64 - 2, 2 ** 64 - 8, 2 ** 64 - 9, 2 ** 64 - 10, 2 ** 63, 2 ** 61, 2 ** 60, 2 ** 59, 2 ** 32, 2 ** 32 - 1, 2 ** 24, 2 ** 24 + 1):
             h = gen.head(mt, v, 27 if v >= 2 ** 32 else 26)
             special += [h, h + b'\x00', h + b'\x01\x02\x03', b'\x82' + h + b'\x00', b'\x5f' + h if mt == 2 else b'\x9f' + h + b'\xff']
+    # declared counts whose byte size (count x 8 for arrays, x 16 for maps) wraps around 2^64 to a small value: a guard that lets the
+    # wrapped product through under-allocates, and the members that follow are written past the block
+    for mt in (4, 5):
+        for base in (2 ** 60, 2 ** 61, 2 ** 62, 2 ** 63, 3 * 2 ** 61, 3 * 2 ** 60):
+            for k in (1, 2, 3):
+                h = gen.head(mt, base + k, 27)
+                special += [h, h + b'\x01', h + b'\x01\x02\x03\x04\x05\x06\x07\x08', b'\x82' + h + b'\x00\x01\x02', b'\x9f' + h + b'\x01\x02\x03\x04\xff']
     for d in (2047, 2048, 2049):
         special += [b'\x81' * d + b'\x00', b'\xc1' * d + b'\x00', b'\x9f' * d + b'\x01' + b'\xff' * d, (b'\xa1\x00') * d + b'\x00', b'\x81' * d + b'\x80']
     special += [gen.head(4, 65537) + b'\x01' * 65537, gen.head(4, 65536) + b'\x01' * 65536, gen.head(5, 32769) + b'\x01\x02' * 32769,
